@@ -376,9 +376,50 @@ int __wrap_coap_io_process_lkd(coap_context_t *ctx, uint32_t timeout_ms) {
   return (int)w;
 }
 
+/* "long" variants: every resource lives below four 90-character path segments and every
+ * request carries them (364 bytes of options: more than the initial 256-byte PDU buffer, so
+ * that every copy / re-build of a PDU has to grow); mode 2 adds three 230-character Uri-Query
+ * options (about 1070 bytes: more than 1024) */
+static int longmode = 0;
+#define LSEG 90
+#define LQRY 230
+static const char *lseg(int i) {
+  static char b[4][LSEG + 1];
+  memset(b[i], 'a' + i, LSEG);
+  b[i][LSEG] = 0;
+  return b[i];
+}
+static const char *full_name(const char *name) {
+  static char b[4 * (LSEG + 1) + 64];
+  if (!longmode) return name;
+  snprintf(b, sizeof(b), "%s/%s/%s/%s/%s", lseg(0), lseg(1), lseg(2), lseg(3), name);
+  return b;
+}
+static int add_path(coap_pdu_t *p, const char *path) {
+  if (longmode)
+    for (int i = 0; i < 4; i++)
+      if (!coap_add_option(p, COAP_OPTION_URI_PATH, LSEG, (const uint8_t *)lseg(i))) return 0;
+  if (!coap_add_option(p, COAP_OPTION_URI_PATH, strlen(path), (const uint8_t *)path)) return 0;
+  return 1;
+}
+/* Uri-Query (15) sorts after everything else the scenarios add before sending except RTAG:
+ * inserted, so the order of the calls does not matter */
+static int add_long_queries(coap_pdu_t *p) {
+  if (longmode < 2) return 1;
+  char q[LQRY + 1];
+  for (int i = 0; i < 3; i++) {
+    memset(q, 'q' + i, LQRY);
+    q[0] = 'k';
+    q[1] = '=';
+    if (!coap_insert_option(p, COAP_OPTION_URI_QUERY, LQRY, (const uint8_t *)q)) return 0;
+  }
+  return 1;
+}
+
 static coap_resource_t *mkres(const char *name, coap_method_handler_t get,
                               coap_method_handler_t put) {
-  coap_resource_t *r = coap_resource_init(coap_make_str_const(name), 0);
+  const char *fn = full_name(name);
+  coap_resource_t *r = coap_resource_init(coap_make_str_const(fn), 0);
   if (!r) return NULL;
   if (get) coap_register_request_handler(r, COAP_REQUEST_GET, get);
   if (put) coap_register_request_handler(r, COAP_REQUEST_PUT, put);
@@ -483,8 +524,7 @@ static coap_pdu_t *mk_req(coap_session_t *s, int type, int code, const char *pat
     memcpy(tok_out, tok, tl);
     *tl_out = tl;
   }
-  if (!coap_add_token(p, tl, tok) ||
-      !coap_add_option(p, COAP_OPTION_URI_PATH, strlen(path), (const uint8_t *)path)) {
+  if (!coap_add_token(p, tl, tok) || !add_path(p, path) || !add_long_queries(p)) {
     coap_delete_pdu(p);
     return NULL;
   }
@@ -695,7 +735,7 @@ static void sc_obs_big(void) {
 static void sc_echo(void) {
   /* POST with a Block1 request body and a Block2 response body */
   prologue(COAP_BLOCK_USE_LIBCOAP | COAP_BLOCK_SINGLE_BODY);
-  coap_resource_t *r = coap_resource_init(coap_make_str_const("echo"), 0);
+  coap_resource_t *r = coap_resource_init(coap_make_str_const(full_name("echo")), 0);
   if (r) {
     coap_register_request_handler(r, COAP_REQUEST_POST, h_echo);
     coap_add_resource(W.srv, r);
@@ -1249,6 +1289,45 @@ static void sc_pdu(void) {
     }
     coap_delete_pdu(p);
   }
+  /* the same with option areas beyond the initial 256-byte buffer and beyond 1024 bytes: every
+   * copy has to grow (coap_pdu_duplicate's direct resize, and the option-by-option path) */
+  for (int big = 0; big < 2; big++) {
+    int nopt = big ? 5 : 2;                 /* 2 x 200 = 400,  5 x 230 = 1150 bytes */
+    size_t olen = big ? 230 : 200;
+    coap_pdu_t *q = coap_pdu_init(COAP_MESSAGE_CON, COAP_REQUEST_CODE_POST, 77, 4096);
+    R("big%d=%d", big, q != NULL);
+    if (!q) continue;
+    int okq = coap_add_token(q, 8, val);
+    for (int i = 0; i < nopt && okq; i++) {
+      uint8_t v2[230];
+      memset(v2, 'A' + i, sizeof(v2));
+      okq = coap_add_option(q, i < 3 ? COAP_OPTION_URI_PATH : COAP_OPTION_URI_QUERY, olen, v2) != 0;
+    }
+    if (okq) okq = coap_add_data(q, 10, val);
+    R("built%d=%d", big, okq);
+    if (okq) {
+      char tag[8];
+      dump_pdu_short(big ? "q1" : "q0", q);
+      coap_pdu_t *e1 = coap_pdu_duplicate(q, W.cs, 8, val, NULL);
+      R("bdup%d=%d", big, e1 != NULL);
+      if (e1) {
+        snprintf(tag, sizeof(tag), "e%d", big);
+        dump_pdu_short(tag, e1);
+        coap_delete_pdu(e1);
+      }
+      coap_opt_filter_t f2;
+      coap_option_filter_clear(&f2);
+      coap_option_filter_set(&f2, COAP_OPTION_CONTENT_FORMAT);
+      coap_pdu_t *e2 = coap_pdu_duplicate(q, W.cs, 3, val, &f2);
+      R("bfdup%d=%d", big, e2 != NULL);
+      if (e2) {
+        snprintf(tag, sizeof(tag), "f%d", big);
+        dump_pdu_short(tag, e2);
+        coap_delete_pdu(e2);
+      }
+    }
+    coap_delete_pdu(q);
+  }
   finish_with_canary();
   world_down();
 }
@@ -1275,6 +1354,22 @@ static void sc_teardown_busy(void) {
   world_down();
 }
 
+#define LONGV(name, mode) static void sc_##name##_l##mode(void) { longmode = mode; sc_##name(); }
+LONGV(get_con, 1)
+LONGV(get_con, 2)
+LONGV(get_non, 2)
+LONGV(block2, 1)
+LONGV(block2, 2)
+LONGV(block1, 1)
+LONGV(observe, 1)
+LONGV(observe, 2)
+LONGV(echo, 1)
+LONGV(async, 1)
+LONGV(cache, 1)
+LONGV(oscore, 1)
+LONGV(qblock, 1)
+LONGV(obs_big, 1)
+
 typedef struct {
   const char *name;
   void (*fn)(void);
@@ -1288,6 +1383,11 @@ static const scen_t scens[] = {
   {"oscore", sc_oscore},     {"obs_big", sc_obs_big},   {"echo", sc_echo},
   {"cache", sc_cache},       {"multi", sc_multi},       {"qblock", sc_qblock},
   {"persist", sc_persist},
+  {"get_con_l1", sc_get_con_l1}, {"get_con_l2", sc_get_con_l2}, {"get_non_l2", sc_get_non_l2},
+  {"block2_l1", sc_block2_l1}, {"block2_l2", sc_block2_l2}, {"block1_l1", sc_block1_l1},
+  {"observe_l1", sc_observe_l1}, {"observe_l2", sc_observe_l2}, {"echo_l1", sc_echo_l1},
+  {"async_l1", sc_async_l1}, {"cache_l1", sc_cache_l1}, {"oscore_l1", sc_oscore_l1},
+  {"qblock_l1", sc_qblock_l1}, {"obs_big_l1", sc_obs_big_l1},
   {NULL, NULL}};
 
 /* ------------------------------------------------------------------ child / parent */
